@@ -1,7 +1,4 @@
 //! BLTE header structures and parsing
-//!
-//! Uses expect in binrw map functions where Result types cannot be used.
-#![allow(clippy::expect_used)]
 
 use binrw::io::{Read, Seek, Write};
 use binrw::{BinRead, BinResult, BinWrite};
@@ -223,7 +220,7 @@ impl BlteHeader {
 #[allow(clippy::cast_possible_truncation)]
 pub struct ExtendedHeader {
     /// Flags indicating chunk info format
-    #[br(map = |x: u8| HeaderFlags::from_byte(x).expect("valid header flags byte"))]
+    #[br(try_map = |x: u8| HeaderFlags::from_byte(x).ok_or_else(|| BlteError::InvalidHeader(format!("unknown table format byte 0x{x:02X}"))))]
     pub flags: HeaderFlags,
 
     /// 24-bit chunk count (big-endian)
